@@ -20,6 +20,7 @@ import (
 	"net/http"
 	"net/http/httptest"
 	"os"
+	"runtime"
 	"strings"
 	"sync"
 	"sync/atomic"
@@ -56,7 +57,6 @@ type group struct {
 	Plugins  bool     `json:"plugins"`
 	Walks    [][]step `json:"walks"`
 }
-
 
 // one real scripted backend on loopback: nothing of the balancer is patched while traffic runs
 var (
@@ -244,24 +244,63 @@ func runGroup(g group, out *bufio.Writer, mu *sync.Mutex) {
 	}
 	fin := make(chan struct{})
 	go func() { wwg.Wait(); close(fin) }()
+	// watchdog: the walks are bounded, so "no operation completed for 20 s" means the run is wedged
 	stuck := false
-	select {
-	case <-fin:
-	case <-time.After(90 * time.Second):
-		stuck = true
+	last, lastChange, began := atomic.LoadInt64(&ops), time.Now(), time.Now()
+wait:
+	for {
+		select {
+		case <-fin:
+			break wait
+		case <-time.After(500 * time.Millisecond):
+			if time.Since(began) > 150*time.Second {
+				stuck = true
+				break wait
+			}
+			if cur := atomic.LoadInt64(&ops); cur != last {
+				last, lastChange = cur, time.Now()
+			} else if time.Since(lastChange) > 20*time.Second || time.Since(began) > 150*time.Second {
+				stuck = true
+				break wait
+			}
+		}
+	}
+	stacks := ""
+	if stuck {
+		buf := make([]byte, 1<<16)
+		stacks = string(buf[:runtime.Stack(buf, true)])
 	}
 	// Stop while readers (and, if stuck, walkers) are still active
 	sfin := make(chan struct{})
 	go func() { defer guard("stop"); lb.Stop(); lb.Stop(); close(sfin) }()
+	stopWait := 30 * time.Second
+	if stuck {
+		stopWait = 3 * time.Second
+	}
 	select {
 	case <-sfin:
-	case <-time.After(30 * time.Second):
+	case <-time.After(stopWait):
+		if !stuck {
+			buf := make([]byte, 1<<16)
+			stacks = string(buf[:runtime.Stack(buf, true)])
+		}
 		stuck = true
 	}
 	close(done)
-	wg.Wait()
+	rfin := make(chan struct{})
+	go func() { wg.Wait(); close(rfin) }()
+	select {
+	case <-rfin:
+	case <-time.After(20 * time.Second):
+		// readers wedged as well: leave them behind
+		if !stuck {
+			buf := make([]byte, 1<<16)
+			stacks = string(buf[:runtime.Stack(buf, true)])
+		}
+		stuck = true
+	}
 	ev := map[string]any{"ev": "group", "id": g.ID, "strategy": g.Strategy, "ops": atomic.LoadInt64(&ops), "walks": len(g.Walks),
-		"panics": panics, "stuck": stuck, "probes": atomic.LoadInt64(&probes)}
+		"panics": panics, "stuck": stuck, "probes": atomic.LoadInt64(&probes), "stacks": stacks}
 	if panics == nil {
 		ev["panics"] = []string{}
 	}
